@@ -14,7 +14,7 @@ A property module (harness/props/cxx.py) defines
     def corpus() -> list[case]                      (optional) hand-written critical cases, run first
     def generate(rng, tier, boost) -> iterator[case]      a case is a JSON-serialisable dict
     def run_real(case) -> list[str]                 canonical observable lines from the REAL code
-    def model_input(case) -> tuple[str, list[str]]  ("<model> <cfg…>", [op lines]) for endriver  (or None: no model run)
+    def model_input(case, real) -> tuple[str, list[str]]  ("<model> <cfg…>", [op lines]) for endriver  (or None: no model run)
     def model_post(case, lines) -> list[str]        (optional) canonicalise model output (e.g. apply the real codec)
     def oracle(case, real) -> str | None            the property itself judged on the real outputs
     def nontrivial(case, real) -> str | None        key of the non-trivial class this case belongs to (None = trivial)
@@ -271,7 +271,7 @@ def evaluate_cases(mod, cases: list[dict], stats: Stats, *, use_model: bool, sam
     if use_model and hasattr(mod, "model_input"):
         batch = []
         for i, c in enumerate(cases):
-            mi = mod.model_input(c)
+            mi = mod.model_input(c, reals[i])
             if mi is not None:
                 batch.append((str(i), mi[0], mi[1]))
         if batch:
@@ -358,8 +358,8 @@ def replay(mod, path: Path) -> int:
     real = mod.run_real(case)
     print("REAL:")
     print("\n".join(real))
-    if hasattr(mod, "model_input") and mod.model_input(case) is not None and DRIVER.exists():
-        mi = mod.model_input(case)
+    if hasattr(mod, "model_input") and mod.model_input(case, real) is not None and DRIVER.exists():
+        mi = mod.model_input(case, real)
         m = run_driver([("0", mi[0], mi[1])]).get("0", [])
         if hasattr(mod, "model_post"):
             m = mod.model_post(case, m)
